@@ -718,7 +718,12 @@ func calAndSetShortCircuit(e *Expr) {
 
 func calAndSetShortCircuitForRCO(e *Expr) {
 	for i, n := range e.nodes {
-		p, _ := parentNode(e, int16(i))
+		p, pIdx := parentNode(e, int16(i))
+		// the result of a true or false branch is the result of its
+		// `if` node, so it decides what the `if` node itself decides
+		for p != nil && p.getNodeType() == cond && int16(i) > pIdx {
+			p, pIdx = parentNode(e, pIdx)
+		}
 		switch {
 		case p == nil:
 			continue
